@@ -21,7 +21,8 @@ pub fn plain(v: &Value) -> J {
         for (k, x) in o.iter() { m.insert(k.to_string(), plain(x)); n += 1; }
         if n != o.len() || m.len() != n { return json!({"t":"obj-inconsistent","len":o.len(),"iter":n,"distinct":m.len()}); }
         // cross-check keyed access against iteration
-        for k in m.keys() { if o.get(k).map(plain).as_ref() != m.get(k) { return json!({"t":"obj-inconsistent","key":k}); } }
+        for k in m.keys() { if o.get(k).map(plain).as_ref() != m.get(k) || !o.contains_key(k) || o.get_key_value(k).map(|(kk, x)| (kk.to_string(), plain(x))) != m.get(k).map(|x| (k.clone(), x.clone())) { return json!({"t":"obj-inconsistent","key":k}); } }
+        if o.contains_key(&"\u{1}no-such-key") || o.get_key_value(&"\u{1}no-such-key").is_some() { return json!({"t":"obj-inconsistent","key":"phantom"}); }
         return json!({"t":"obj","m":m});
     }
     json!({"t":"unknown"})
@@ -162,12 +163,12 @@ fn step(w: &mut World, op: &J, how: usize, rest: &[J]) -> Result<(), String> {
                         "swap_remove" => vec![a.swap_remove(i)],
                         "truncate" => { a.truncate(i); vec![] }
                         "clear" => { a.clear(); vec![] }
-                        "resize" => { a.resize(i, arg); vec![] }
+                        "resize" => { if how % 2 == 1 && op["src"] == "lit" { a.resize_with(i, || sjson!(7)); drop(arg); } else { a.resize(i, arg); } vec![] }
                         "extend_from_within" => { a.extend_from_within(0..i); vec![] }
                         "set" => { a[i] = arg; vec![] }
                         "take_elem" => vec![a[i].take()],
                         "drain" => a.drain(..i).collect(),
-                        "retain_even" => { let mut k = 0usize; a.retain(|_| { k += 1; k % 2 == 1 }); vec![] }
+                        "retain_even" => { let mut k = 0usize; if how % 2 == 1 { a.retain_mut(|_| { k += 1; k % 2 == 1 }); } else { a.retain(|_| { k += 1; k % 2 == 1 }); } vec![] }
                         "into_iter" => {
                             // the owning iterator: what it reports about the elements not yet yielded, before and after the first one
                             let n = a.len();
@@ -194,10 +195,10 @@ fn step(w: &mut World, op: &J, how: usize, rest: &[J]) -> Result<(), String> {
                         let m = tgt.as_object_mut().ok_or("not an object")?;
                         catch(move || -> Vec<Value> { match f {
                             "insert" => m.insert(&key, arg).into_iter().collect(),
-                            "remove" => m.remove(&key).into_iter().collect(),
+                            "remove" => if how % 3 == 1 { match m.remove_entry(&key) { Some((k, v)) => { assert_eq!(k, key.as_str(), "remove_entry: key"); vec![v] } None => vec![] } } else { m.remove(&key).into_iter().collect() },
                             "clear" => { m.clear(); vec![] }
-                            "or_insert" => { m.entry(&key).or_insert(arg); vec![] }
-                            "set" => { m.insert(&key, arg); vec![] }
+                            "or_insert" => { match how % 3 { 0 => { m.entry(&key).or_insert(arg); } 1 => { m.entry(&key).or_insert_with(move || arg); } _ => { let want = key.clone(); m.entry(&key).or_insert_with_key(move |k| { assert_eq!(k, want.as_str(), "or_insert_with_key: key"); arg }); } } vec![] }
+                            "set" => { if how % 4 == 2 { match m.entry(&key) { sonic_rs::value::object::Entry::Occupied(e) => { *e.into_mut() = arg; } sonic_rs::value::object::Entry::Vacant(e) => { e.insert(arg); } } } else { m.insert(&key, arg); } vec![] }
                             "entry_key" => { let e = m.entry(&key); assert_eq!(e.key(), key.as_str(), "Entry::key"); vec![] }
                             "and_modify" => { m.entry(&key).and_modify(|v| *v = arg); vec![] }
                             "entry_remove" => match m.entry(&key) { sonic_rs::value::object::Entry::Occupied(e) => vec![e.remove()], sonic_rs::value::object::Entry::Vacant(e) => { assert_eq!(e.key(), key.as_str(), "VacantEntry::key"); vec![] } },
